@@ -2,10 +2,14 @@
   L3 — the discrete sub-algorithms of `grisubal` that an executable model can carry
   (`honeycomb-kernels/src/grisubal/routines/pre_processing.rs`).
 
-  Only `detect_orientation_issue` and the sizing formulas of `compute_overlapping_grid` are modelled:
-  the rest of the pipeline mixes f64 formulas with
-  `T::epsilon()` bands and `HashMap`-ordered dart numbering and is validated end-to-end by the exact
-  oracle of `tools/props/c16.py` on the real implementation (DESIGN.md §7 C16).
+  Modelled: `detect_orientation_issue`, the sizing formulas of `compute_overlapping_grid`, and step 1
+  of the kernel for one segment (`generate_intersection_data`, `compute_intersecs.rs`): which grid darts
+  the segment crosses, at which relative position `t` of the grid side and at which parameter `s` of
+  the segment, in the order from the first to the second end point — over `Rat` (exact `/`, `floor`),
+  with the `T::epsilon()` bands of the diagonal case as a parameter `eps`.
+  The rest of the pipeline (`HashMap`-ordered dart numbering of the inserted darts, edge insertion, clip)
+  is validated end-to-end by the exact oracle of `tools/props/c16.py` on the real implementation
+  (DESIGN.md §7 C16).
 
   Import-free (core only).
 -/
@@ -38,5 +42,152 @@ def gridOrigin (mn c shift : Rat) : Rat := mn - c * (3 / 2) + c * shift
 
 /-- `n_cells = ((max - og) / len_cell).ceil().to_usize().unwrap() + 1` -/
 def gridCells (mn mx c shift : Rat) : Nat := ((mx - gridOrigin mn c shift) / c).ceil.toNat + 1
+
+/-! ## step 1 for one segment: `generate_intersection_data` (`routines/compute_intersecs.rs`) -/
+
+/-- the overlapping grid as the kernel sees it: origin, cell lengths, number of cells along x (the
+    grid darts of cell `(x, y)` are `1 + 4x + 4·nx·y + {0 bottom, 1 right, 2 top, 3 left}`) -/
+structure GGrid where
+  ox : Rat
+  oy : Rat
+  cx : Rat
+  cy : Rat
+  nx : Nat
+  deriving Repr
+
+/-- a point / vertex `(x, y)` -/
+abbrev Pt := Rat × Rat
+
+/-- one intersection: the intersected grid dart, the relative position `t` on the grid side measured
+    from the vertex of that dart, and the parameter `s` on the segment (the code keeps `s` only in the
+    diagonal case, to sort; it is kept everywhere here — it does not influence `dart` and `t`).
+    `t = 0` in the diagonal case is the code's `GeometryVertex::IntersecCorner(dart)`. -/
+structure Cross where
+  dart : Nat
+  t : Rat
+  s : Rat
+  deriving Repr, DecidableEq
+
+/-- `GridCellId(((v.x - ox) / cx).floor().to_usize().unwrap(), ((v.y - oy) / cy).floor().to_usize().unwrap())` -/
+def cellOf (g : GGrid) (p : Pt) : Nat × Nat :=
+  (((p.1 - g.ox) / g.cx).floor.toNat, ((p.2 - g.oy) / g.cy).floor.toNat)
+
+/-- `d_base = 1 + 4 * x + nx * 4 * y` (computed in `isize` in the code; cells are non-negative) -/
+def dBase (g : GGrid) (x y : Int) : Int := 1 + 4 * x + (g.nx : Int) * 4 * y
+
+/-- `cmap.force_read_vertex(cmap.vertex_id(d_base + k))` on the freshly built grid: the corner the
+    `k`-th dart of cell `(x, y)` starts from (0 bottom-left, 1 bottom-right, 2 top-right, 3 top-left;
+    `Props/C12`: the builder puts `origin + (i·cx, j·cy)` there) -/
+def cornerOf (g : GGrid) (x y : Int) (k : Nat) : Pt :=
+  match k with
+  | 0 => (g.ox + (x : Rat) * g.cx, g.oy + (y : Rat) * g.cy)
+  | 1 => (g.ox + ((x : Rat) + 1) * g.cx, g.oy + (y : Rat) * g.cy)
+  | 2 => (g.ox + ((x : Rat) + 1) * g.cx, g.oy + ((y : Rat) + 1) * g.cy)
+  | _ => (g.ox + (x : Rat) * g.cx, g.oy + ((y : Rat) + 1) * g.cy)
+
+/-- `left_intersec!`: `(s, t)` -/
+def leftI (va vb vd : Pt) (cy : Rat) : Rat × Rat :=
+  let s := (vd.1 - va.1) / (vb.1 - va.1)
+  (s, (vd.2 - va.2 - (vb.2 - va.2) * s) / cy)
+
+/-- `right_intersec!` -/
+def rightI (va vb vd : Pt) (cy : Rat) : Rat × Rat :=
+  let s := (vd.1 - va.1) / (vb.1 - va.1)
+  (s, ((vb.2 - va.2) * s - (vd.2 - va.2)) / cy)
+
+/-- `down_intersec!` -/
+def downI (va vb vd : Pt) (cx : Rat) : Rat × Rat :=
+  let s := (vd.2 - va.2) / (vb.2 - va.2)
+  (s, ((vb.1 - va.1) * s - (vd.1 - va.1)) / cx)
+
+/-- `up_intersec!` -/
+def upI (va vb vd : Pt) (cx : Rat) : Rat × Rat :=
+  let s := (vd.2 - va.2) / (vb.2 - va.2)
+  (s, ((vd.1 - va.1) - (vb.1 - va.1) * s) / cx)
+
+/-- the `Range<isize>` `lo..hi` -/
+def irange (lo hi : Int) : List Int := (List.range (hi - lo).toNat).map (fun (k : Nat) => lo + (k : Int))
+
+/-- vertical side of cell `(x, y)` in the direction of travel: right side (`d_base + 1`,
+    `right_intersec!`) if `pos`, else left side (`d_base + 3`, `left_intersec!`) -/
+def vCross (g : GGrid) (va vb : Pt) (pos : Bool) (x y : Int) : Cross :=
+  let k := if pos then 1 else 3
+  let st := if pos then rightI va vb (cornerOf g x y k) g.cy else leftI va vb (cornerOf g x y k) g.cy
+  { dart := (dBase g x y + (k : Int)).toNat, t := st.2, s := st.1 }
+
+/-- horizontal side of cell `(x, y)` in the direction of travel: top side (`d_base + 2`,
+    `up_intersec!`) if `pos`, else bottom side (`d_base`, `down_intersec!`) -/
+def hCross (g : GGrid) (va vb : Pt) (pos : Bool) (x y : Int) : Cross :=
+  let k := if pos then 2 else 0
+  let st := if pos then upI va vb (cornerOf g x y k) g.cx else downI va vb (cornerOf g x y k) g.cx
+  { dart := (dBase g x y + (k : Int)).toNat, t := st.2, s := st.1 }
+
+/-- the `filter_map` closure of the diagonal case: at most one intersection per cell of the sub-grid
+    (`i`, `j` = the cell offsets) -/
+def diagPick (eps : Rat) (i j : Int) (v h : Cross) : Option Cross :=
+  let corner : Option Cross :=
+    if decide (0 < i) = decide (0 < j) then
+      -- (true, true) | (false, false)
+      if (if v.t - 1 < 0 then -(v.t - 1) else v.t - 1) < eps ∧ (if h.t < 0 then -h.t else h.t) < eps then
+        some { h with t := 0 }
+      else none
+    else
+      if (if v.t < 0 then -v.t else v.t) < eps ∧ (if h.t - 1 < 0 then -(h.t - 1) else h.t - 1) < eps then
+        some { v with t := 0 }
+      else none
+  match corner with
+  | some c => some c
+  | none =>
+    if eps ≤ v.s ∧ v.s ≤ 1 - eps ∧ eps ≤ v.t ∧ v.t ≤ 1 - eps then some v
+    else if eps < h.s ∧ h.s ≤ 1 - eps ∧ eps ≤ h.t ∧ h.t ≤ 1 - eps then some h
+    else none
+
+/-- stable insertion by `s` (`sort_by(|(s1, ..), (s2, ..)| s1.partial_cmp(s2))` is a stable sort) -/
+def insertByS (c : Cross) : List Cross → List Cross
+  | [] => [c]
+  | d :: ds => if c.s < d.s then c :: d :: ds else d :: insertByS c ds
+
+def sortByS (l : List Cross) : List Cross := l.foldl (fun acc c => insertByS c acc) []
+
+/-- `generate_intersection_data` for the segment `va → vb`: the intersections in the order of their
+    identifiers (`start .. start + dist`), i.e. from `va` to `vb` -/
+def crossingsOf (g : GGrid) (eps : Rat) (va vb : Pt) : List Cross :=
+  let c1 := cellOf g va
+  let c2 := cellOf g vb
+  let i : Int := (c2.1 : Int) - (c1.1 : Int)
+  let j : Int := (c2.2 : Int) - (c1.2 : Int)
+  let dist := i.natAbs + j.natAbs
+  let ib : Int := c1.1
+  let jb : Int := c1.2
+  match dist with
+  | 0 => []
+  | 1 =>
+      -- `match diff { (-1, 0) => d_base + 3 / left, (1, 0) => d_base + 1 / right, (0, -1) => d_base / down,
+      --               (0, 1) => d_base + 2 / up }`
+      if j = 0 then [vCross g va vb (decide (0 < i)) ib jb]
+      else [hCross g va vb (decide (0 < j)) ib jb]
+  | _ =>
+      if j = 0 then
+        -- `(i, 0)`: `(min(i_base, i_base + 1 + i)..max(i_base + i, i_base + 1))`, reversed if `i < 0`
+        let l := (irange (min ib (ib + 1 + i)) (max (ib + i) (ib + 1))).map
+          (fun x => vCross g va vb (decide (0 < i)) x jb)
+        if 0 < i then l else l.reverse
+      else if i = 0 then
+        let l := (irange (min jb (jb + 1 + j)) (max (jb + j) (jb + 1))).map
+          (fun y => hCross g va vb (decide (0 < j)) ib y)
+        if 0 < j then l else l.reverse
+      else
+        -- `(i, j)`: the cells of the sub-grid, `x` outer, `y` inner
+        let xs := irange (min ib (ib + i)) (max (ib + i) ib + 1)
+        let ys := irange (min jb (jb + j)) (max (jb + j) jb + 1)
+        let cand := xs.flatMap (fun x => ys.filterMap (fun y =>
+          diagPick eps i j (vCross g va vb (decide (0 < i)) x y) (hCross g va vb (decide (0 < j)) x y)))
+        sortByS (cand.filter (fun c => decide (0 ≤ c.s ∧ c.s ≤ 1)))
+
+/-- the point of the segment at parameter `s` -/
+def segPoint (va vb : Pt) (s : Rat) : Pt := (va.1 + s * (vb.1 - va.1), va.2 + s * (vb.2 - va.2))
+
+/-- `T::epsilon()` of `f64` -/
+def epsF64 : Rat := 1 / 4503599627370496
 
 end HC
